@@ -213,7 +213,7 @@ CLAIMS['C29'] = {
 
 CLAIMS['C31'] = {
   'text': 'LINE, LINE ,B, LINE ,BF and PSET/POINT clauses (GET/PUT only through the sprite builders, see note). Proof on the real Graphics._draw_line for ALL endpoint pairs on the screen by loop invariant (line_error = dX div 2 - i*dY + j*dX, 0 <= line_error < dX, discharged with nonlinear integer arithmetic): every iteration stores exactly one pixel at (X0 + sX*i, Y0 + sY*j) in the line attribute, the minor coordinate moves by at most one step (8-connected), the loop runs max(|dx|,|dy|)+1 times at distinct major coordinates, the first pixel is one endpoint and the invariant forces the last pixel onto the other; _draw_straight stores exactly the pixels of its edge (loop invariant), _draw_box issues exactly the four edges, _draw_box_filled stores exactly the rectangle, PSET stores exactly one pixel which POINT reads.',
-  'note': _TB + 'Unclipped screen (640x400 stand-in, no VIEW/WINDOW), solid pattern; for the primitives the pixel buffer is a recording stand-in behind the viewport interface; the real GraphicsViewPort is proved to pass on-screen pixels, rows, columns and rectangles through unchanged when no VIEW is set, and Graphics.line_ to hand the right endpoints to the primitives (STEP on the second coordinate relative to the first endpoint; omitted first coordinate = graphics cursor; no WINDOW). GET/PUT: the packed (CGA) sprite builder is proved to satisfy unpack(pack(sprite)) = sprite with its size record for symbolic pixel contents (sizes 1x1 .. 9x2, 1/2/4 bits per pixel); BOUNDED, not proved: the planed (EGA) and Tandy SCREEN 6 builders and PUT's XOR/OR/AND operations (XOR twice restores) are sampled natively; the get_/put_ statements themselves are not under contract. Loop-invariant obligations are auxiliary: if a changed algorithm no longer satisfies the invariant the check reports undecided (exit 2) and relies on the BOUNDED native cross-check (300/5000 sampled endpoint pairs, never counted as proved) to show an actual violation.',
+  'note': _TB + 'Unclipped screen (640x400 stand-in, no VIEW/WINDOW), solid pattern; for the primitives the pixel buffer is a recording stand-in behind the viewport interface; the real GraphicsViewPort is proved to pass on-screen pixels, rows, columns and rectangles through unchanged when no VIEW is set, and Graphics.line_ to hand the right endpoints to the primitives (STEP on the second coordinate relative to the first endpoint; omitted first coordinate = graphics cursor; no WINDOW). GET/PUT: the packed (CGA) sprite builder is proved to satisfy unpack(pack(sprite)) = sprite with its size record for symbolic pixel contents (sizes 1x1 .. 9x2, 1/2/4 bits per pixel); BOUNDED, not proved: the planed (EGA) and Tandy SCREEN 6 builders and the XOR/OR/AND operations of PUT (XOR twice restores) are sampled natively; the get_/put_ statements themselves are not under contract. Loop-invariant obligations are auxiliary: if a changed algorithm no longer satisfies the invariant the check reports undecided (exit 2) and relies on the BOUNDED native cross-check (300/5000 sampled endpoint pairs, never counted as proved) to show an actual violation.',
 }
 
 CLAIMS['C08'] = {
